@@ -86,7 +86,7 @@ PROPS = {
         ],
     },
     "C12": {
-        "theorems": ["SV.Props.C12.source_capacity_test_is_the_models", "SV.Props.C12.source_chunk_config_is_the_models", "SV.Props.C12.add_keeps_immune", "SV.Props.C12.eviction_skips_immune", "SV.Props.C12.protected_forever", "SV.Props.C12.protected_when_added", "SV.Props.C12.protected_when_immunized", "SV.Props.C12.all_immune_refused", "SV.Props.C12.refusal_changes_nothing", "SV.Props.C12.never_overwrites", "SV.Props.C12.legacy_F10"],
+        "theorems": ["SV.Props.C12.cache_protects_accepted_keys", "SV.Props.C12.cache_protected_forever", "SV.Props.C12.cache_all_immune_refused", "SV.Props.C12.cache_refusal_changes_nothing", "SV.Props.C12.cache_never_overwrites", "SV.Props.C12.source_capacity_test_is_the_models", "SV.Props.C12.source_chunk_config_is_the_models", "SV.Props.C12.add_keeps_immune", "SV.Props.C12.eviction_skips_immune", "SV.Props.C12.protected_forever", "SV.Props.C12.protected_when_added", "SV.Props.C12.protected_when_immunized", "SV.Props.C12.all_immune_refused", "SV.Props.C12.refusal_changes_nothing", "SV.Props.C12.never_overwrites", "SV.Props.C12.legacy_F10"],
         "modules": ["SV.Props.C12"],
         "runs": [{"component": "immunity", "thorough_seeds": 2}],
         "rule": "random HasOrAdd/Put/Remove/ImmunizeKeys/Clear histories over 4-12 keys through ImmunityCache and CrossTxCache, 1-16 chunks, capacities at their lower bounds, sizes 0..500; thorough adds all histories of length 5 over an 11-operation alphabet (single chunk); distinct = distinct (operation kind, canonical output incl. full dump) pairs",
@@ -94,7 +94,7 @@ PROPS = {
         "assumptions": ["Go maps and container/list are modelled (association lists, lists); chunk routing by fnv32 is modelled exactly; item sizes are >= 0"],
     },
     "C13": {
-        "theorems": ["SV.Props.C13.source_capacity_test_is_the_models", "SV.Props.C13.source_chunk_config_is_the_models", "SV.Props.C13.chunk_invariant", "SV.Props.C13.flags_truthful", "SV.Props.C13.eviction_is_fifo", "SV.Props.C13.eviction_partition", "SV.Props.C13.remove_withdraws_immunity", "SV.Props.C13.immunize_gate"],
+        "theorems": ["SV.Props.C13.cache_never_exceeds_max", "SV.Props.C13.cache_views_agree", "SV.Props.C13.cache_flags_truthful", "SV.Props.C13.cache_remove_withdraws_immunity", "SV.Props.C13.cache_immunize_gate_refuses_whole", "SV.Props.C13.source_capacity_test_is_the_models", "SV.Props.C13.source_chunk_config_is_the_models", "SV.Props.C13.chunk_invariant", "SV.Props.C13.flags_truthful", "SV.Props.C13.eviction_is_fifo", "SV.Props.C13.eviction_partition", "SV.Props.C13.remove_withdraws_immunity", "SV.Props.C13.immunize_gate"],
         "modules": ["SV.Props.C13"],
         "runs": [{"component": "immunity", "thorough_seeds": 2}],
         "rule": "random HasOrAdd/Put/Remove/ImmunizeKeys/Clear histories over 4-12 keys through ImmunityCache and CrossTxCache, 1-16 chunks, capacities at their lower bounds, sizes 0..500; thorough adds all histories of length 5 over an 11-operation alphabet (single chunk); distinct = distinct (operation kind, canonical output incl. full dump) pairs",
@@ -124,7 +124,7 @@ PROPS = {
         "assumptions": ["goleveldb contract: Write(batch) applies the batch atomically and in order, Get/Has/NewIterator read the applied writes, Close/Open preserve them", "timer flush is modelled as an explicit tick event; the harness waits BatchDelaySeconds+0.35s for it"],
     },
     "C16": {
-        "theorems": ["SV.Props.C16.behaves_like_map_of_acknowledged_writes", "SV.Props.C16.rejected_put", "SV.Props.C16.remove_both_layers", "SV.Props.C16.get_is_readonly"],
+        "theorems": ["SV.Props.C16.real_cachers_satisfy_the_contract", "SV.Props.C16.unit_over_size_lru", "SV.Props.C16.unit_over_lru", "SV.Props.C16.unit_over_fifo", "SV.Props.C16.real_unit_rejected_put_not_served", "SV.Props.C16.behaves_like_map_of_acknowledged_writes", "SV.Props.C16.rejected_put", "SV.Props.C16.remove_both_layers", "SV.Props.C16.get_is_readonly"],
         "modules": ["SV.Props.C16"],
         "runs": [{"component": "unit", "thorough_seeds": 2}],
         "rule": 'random Put/Get/Has/Remove/ClearCache/GetBulk histories on storageUnit.Unit over every cacher the factory builds (LRU, SizeLRU, FIFOSharded) at capacities 1-6, over memorydb behind a fault-injecting wrapper (Put/Get/Remove rejected at random positions) and over real leveldb.DB / SerialDB; after every operation the injected cacher is read back (Keys/Peek) and fed to the model as the eviction outcome; distinct = distinct (operation kind, canonical output) pairs',
